@@ -150,6 +150,9 @@ CATALOGUE = [
     ('C17', 'min-timer-never-releases', 'bacpypes/local/object.py', "        # clear the value at priority 6\n        self.binary_obj.WriteProperty(\"presentValue\", (), priority=6)", "        # clear the value at priority 6\n        pass"),
     ('C17', 'unchanged-value-skips-slot-update', 'bacpypes/local/object.py', "            # update the priority array entry\n            if property == priorityArray:\n                if arrayIndex is None:",
      "            # update the priority array entry\n            if property == priorityArray and arrayIndex is not None and value != () and value == getattr(self, presentValue):\n                return\n            if property == priorityArray:\n                if arrayIndex is None:"),
+    ('C17', 'default-present-value-assigned-after-mixins', 'bacpypes/local/object.py',
+     "                kwargs[presentValue] = kwargs.get(relinquishDefault, default_value)\n\n            super(_Commando, self).__init__(**kwargs)\n",
+     "                pass\n\n            super(_Commando, self).__init__(**kwargs)\n            if presentValue not in kwargs:\n                setattr(self, presentValue, kwargs.get(relinquishDefault, default_value))\n"),
     # ---- C19
     ('C19', 'displaced-router-keeps-dnet', 'bacpypes/netservice.py', "                    if dnet in router_info.dnets:\n                        del router_info.dnets[dnet]\n                        del self.path_info[(snet, dnet)]\n                        if _debug: RouterInfoCache._debug(\"    - del path: %r -> %r via %r\", snet, dnet, router_info.address)\n                if not router_info.dnets:\n                    del self.routers[snet][router_info.address]\n                    if _debug: RouterInfoCache._debug(\"    - no dnets: %r via %r\", snet, router_info.address)\n\n        # update current router info if there is one",
      "                    if dnet in router_info.dnets:\n                        del self.path_info[(snet, dnet)]\n                if not router_info.dnets:\n                    del self.routers[snet][router_info.address]\n\n        # update current router info if there is one"),
